@@ -64,6 +64,7 @@ type MsResp struct {
 	Len   int      `json:"len"`
 	Etag  bool     `json:"etag"`
 	Tag   string   `json:"tag"`
+	Lm    bool     `json:"lm"` // getlastmodified answered with a parsable HTTP date
 }
 
 type Report struct {
@@ -825,7 +826,9 @@ func (sb *Sandbox) Observe(r *Req, s Served) Report {
 		rep.Etag = true
 		rep.Tag = et
 	}
-	rep.Lm = s.Header.Get("Last-Modified") != ""
+	if _, err := http.ParseTime(s.Header.Get("Last-Modified")); err == nil {
+		rep.Lm = true
+	}
 	rep.Allow = splitList(s.Header["Allow"])
 	rep.Dav = splitList(s.Header["Dav"])
 	switch r.M {
@@ -860,6 +863,11 @@ func (sb *Sandbox) Observe(r *Req, s Served) Report {
 				if v, ok := x.Props["getetag"]; ok && v != "" {
 					m.Etag = true
 					m.Tag = v
+				}
+				if v, ok := x.Props["getlastmodified"]; ok {
+					if _, err := http.ParseTime(strings.TrimSpace(v)); err == nil {
+						m.Lm = true
+					}
 				}
 				rep.Ms = append(rep.Ms, m)
 			}
